@@ -11,6 +11,7 @@ import (
 	"sort"
 	"strings"
 	"testing"
+	"time"
 
 	"deps.dev/util/resolve"
 	"deps.dev/util/resolve/dep"
@@ -173,8 +174,14 @@ func validate(u gen.Universe, root [2]string, st *satTable) (obs, exp string, s 
 	npmresolve.VerifTreeHook = func(r *npmresolve.VerifTreeNode) { tree = r }
 	defer func() { npmresolve.VerifTreeHook = nil }()
 	rvk := resolve.VersionKey{PackageKey: resolve.PackageKey{System: resolve.NPM, Name: root[0]}, VersionType: resolve.Concrete, Version: root[1]}
-	g, e := npmresolve.NewResolver(client).Resolve(context.Background(), rvk)
+	ctx, cancel := context.WithTimeout(context.Background(), 5*time.Second)
+	g, e := npmresolve.NewResolver(client).Resolve(ctx, rvk)
+	cancel()
 	if e != nil {
+		if ctx.Err() != nil {
+			// the recorded npm non-termination (C04): an alias repeated along a cycle
+			return "", "", s, "resolver-did-not-return-within-5s (C04 finding)", nil
+		}
 		return "", "", s, "resolve-error", nil
 	}
 	if tree == nil {
@@ -267,6 +274,24 @@ func validate(u gen.Universe, root [2]string, st *satTable) (obs, exp string, s 
 	for _, e := range g.Edges {
 		from, to := g.Nodes[e.From].Version, g.Nodes[e.To].Version
 		dname := depName(e.Type, to.Name)
+		// A plain requirement may be answered by a copy installed under that
+		// name as an alias of another package (reuse is by name): the edge then
+		// leads to a package whose own name differs from the dependency name.
+		// Take the name from the dependent's requirements with this requirement
+		// string whose lookup lands on the target.
+		if _, aliased := e.Type.GetAttr(dep.KnownAs); !aliased {
+			if reqs, err := client.Requirements(context.Background(), from); err == nil {
+				for _, r := range reqs {
+					if r.Version != e.Requirement {
+						continue
+					}
+					if n := depName(r.Type, r.Name); n != dname && lookup(byID[int(e.From)], n) == byID[int(e.To)] && lookup(byID[int(e.From)], dname) != byID[int(e.To)] {
+						dname = n
+						break
+					}
+				}
+			}
+		}
 		// An edge stands for the requirement with its dependency name (alias
 		// if any) and requirement string. The target need not be the package
 		// the requirement names: like npm 6, the resolver reuses whatever is
@@ -408,7 +433,7 @@ func highest(vs []string) (string, error) {
 func knownClass(obs string) string { return "" }
 
 func prop(t *rapid.T) {
-	u := gen.NPMUniverse(gen.NPMOpts{Aliases: true}).Draw(t, "universe")
+	u := gen.NPMUniverse(gen.NPMOpts{Aliases: true, RealNameAliases: true}).Draw(t, "universe")
 	roots := u.Roots()
 	if len(roots) == 0 {
 		return
